@@ -3,9 +3,14 @@
    The statements hold for every commutative ring presented through the Num interface
    (class NumRing); ZNum (the i64 harness instance) and RNum are instances (ZRing, RRing).
    [Inv a] : length (inner a) = height a * width a  (well-formed array);
-   [get n0 a i j] : buffer element i*width+j;  [dot_entry a b i j] = sum_k a_ik * b_kj  (fold_right over seq). *)
+   [get n0 a i j] : buffer element i*width+j;  [dot_entry a b i j] = sum_k a_ik * b_kj  (fold_right over seq).
+   The last block (c11_dot_float_...) is about the FLOAT instance that is extracted and run against the code
+   (Proofs/Arr2DFloat.v, through Flocq): [B2R (Prim2B x)] is the real value of the primitive float x,
+   [dot_partial a b i j m] the first m steps of the loop `sum += a[i][k] * b[k][j]` started from +0.0,
+   [Rsum] a fold_right of Rplus. *)
 From Coq Require Import ZArith List Bool Reals Lia.
-From SV Require Import Base.Num Base.Outcome Model.Arr2D Proofs.Arr2D Proofs.Arr2DDot.
+From Flocq Require Import Core BinarySingleNaN PrimFloat.
+From SV Require Import Base.Num Base.Outcome Model.Arr2D Proofs.Arr2D Proofs.Arr2DDot Proofs.Stats Proofs.Arr2DFloat.
 Import ListNotations.
 
 (* conforming shapes (m x k times k x n), ALL shapes: row/column vectors, outer products, 1x1 factors, empty dimensions *)
@@ -148,3 +153,87 @@ Example c11_nonvacuous :
   width (mkArr [1; 2; 3; 4; 5; 6] 2 3) = height (mkArr [1; 0; 0; 1; 1; 1] 3 2) /\
   @dot Z ZNum (mkArr [1; 2; 3; 4; 5; 6] 2 3) (mkArr [1; 0; 0; 1; 1; 1] 3 2) = Ok (mkArr [4; 5; 10; 11] 2 2).
 Proof. repeat split. Qed.
+
+(* ---- FLOAT instance: rounding-error bound for the entries of a conforming product (Flocq) ---- *)
+
+(* without ring laws (so also for floats): a conforming product has the right shape and its entry (i,j) is the
+   value the loop computes, [dot_entry_fl]: the left-to-right accumulation from n0, or scalar * x through the 1x1 shortcut *)
+Theorem c11_dot_fl_conforming : forall (T : Type) (NT : Num T) (a b : arr T),
+  Inv a -> Inv b -> width a = height b ->
+  exists c, dot a b = Ok c /\ Inv c /\ height c = height a /\ width c = width b /\
+    forall i j, (i < height a)%nat -> (j < width b)%nat -> get n0 c i j = dot_entry_fl a b i j.
+Proof. exact @Proofs.Arr2DFloat.dot_fl_conforming. Qed.
+Check c11_dot_fl_conforming : forall (T : Type) (NT : Num T) (a b : arr T),
+  Inv a -> Inv b -> width a = height b ->
+  exists c, dot a b = Ok c /\ Inv c /\ height c = height a /\ width c = width b /\
+    forall i j, (i < height a)%nat -> (j < width b)%nat -> get n0 c i j = dot_entry_fl a b i j.
+Print Assumptions c11_dot_fl_conforming.
+
+(* binary64: if every product and every partial sum of every entry is finite, each entry of the Ok result is finite and
+   |entry - sum_k a_ik b_kj| <= ((1+eps)^(n+1) - 1) * sum_k |a_ik b_kj| + n (1+eps)^n eta,  n = width a, eps = 2^-53, eta = 2^-1075 *)
+Theorem c11_dot_float_error : forall a b : arr PrimFloat.float,
+  Inv a -> Inv b -> width a = height b ->
+  (forall i j k, (i < height a)%nat -> (j < width b)%nat -> (k < width a)%nat ->
+     is_finite (Prim2B (PrimFloat.mul (get n0 a i k) (get n0 b k j))) = true) ->
+  (forall i j m, (i < height a)%nat -> (j < width b)%nat -> (m <= width a)%nat ->
+     is_finite (Prim2B (dot_partial a b i j m)) = true) ->
+  exists c, dot a b = Ok c /\ Inv c /\ height c = height a /\ width c = width b /\
+    forall i j, (i < height a)%nat -> (j < width b)%nat ->
+      is_finite (Prim2B (get n0 c i j)) = true /\
+      (Rabs (B2R (Prim2B (get n0 c i j))
+            - Rsum (map (fun k => B2R (Prim2B (get n0 a i k)) * B2R (Prim2B (get n0 b k j))) (seq 0 (width a))))
+      <= ((1 + bpow radix2 (-53)) ^ S (width a) - 1)
+           * Rsum (map (fun k => Rabs (B2R (Prim2B (get n0 a i k)) * B2R (Prim2B (get n0 b k j)))) (seq 0 (width a)))
+         + INR (width a) * (1 + bpow radix2 (-53)) ^ width a * bpow radix2 (-1075))%R.
+Proof. exact Proofs.Arr2DFloat.dot_float_error. Qed.
+Check c11_dot_float_error : forall a b : arr PrimFloat.float,
+  Inv a -> Inv b -> width a = height b ->
+  (forall i j k, (i < height a)%nat -> (j < width b)%nat -> (k < width a)%nat ->
+     is_finite (Prim2B (PrimFloat.mul (get n0 a i k) (get n0 b k j))) = true) ->
+  (forall i j m, (i < height a)%nat -> (j < width b)%nat -> (m <= width a)%nat ->
+     is_finite (Prim2B (dot_partial a b i j m)) = true) ->
+  exists c, dot a b = Ok c /\ Inv c /\ height c = height a /\ width c = width b /\
+    forall i j, (i < height a)%nat -> (j < width b)%nat ->
+      is_finite (Prim2B (get n0 c i j)) = true /\
+      (Rabs (B2R (Prim2B (get n0 c i j))
+            - Rsum (map (fun k => B2R (Prim2B (get n0 a i k)) * B2R (Prim2B (get n0 b k j))) (seq 0 (width a))))
+      <= ((1 + bpow radix2 (-53)) ^ S (width a) - 1)
+           * Rsum (map (fun k => Rabs (B2R (Prim2B (get n0 a i k)) * B2R (Prim2B (get n0 b k j)))) (seq 0 (width a)))
+         + INR (width a) * (1 + bpow radix2 (-53)) ^ width a * bpow radix2 (-1075))%R.
+Print Assumptions c11_dot_float_error.
+
+(* the no-overflow hypotheses for entry (i,j) follow from finite operands and a real-number bound on the data *)
+Theorem c11_dot_float_no_overflow : forall (a b : arr PrimFloat.float) (i j : nat),
+  (forall k, (k < width a)%nat ->
+     is_finite (Prim2B (get n0 a i k)) = true /\ is_finite (Prim2B (get n0 b k j)) = true) ->
+  ((1 + bpow radix2 (-53)) ^ width a
+    * ((1 + bpow radix2 (-53))
+         * Rsum (map (fun k => Rabs (B2R (Prim2B (get n0 a i k)) * B2R (Prim2B (get n0 b k j)))) (seq 0 (width a)))
+       + INR (width a) * bpow radix2 (-1075))
+    < bpow radix2 1024)%R ->
+  (forall k, (k < width a)%nat ->
+     is_finite (Prim2B (PrimFloat.mul (get n0 a i k) (get n0 b k j))) = true) /\
+  (forall m, (m <= width a)%nat -> is_finite (Prim2B (dot_partial a b i j m)) = true).
+Proof. exact Proofs.Arr2DFloat.dot_float_no_overflow. Qed.
+Check c11_dot_float_no_overflow : forall (a b : arr PrimFloat.float) (i j : nat),
+  (forall k, (k < width a)%nat ->
+     is_finite (Prim2B (get n0 a i k)) = true /\ is_finite (Prim2B (get n0 b k j)) = true) ->
+  ((1 + bpow radix2 (-53)) ^ width a
+    * ((1 + bpow radix2 (-53))
+         * Rsum (map (fun k => Rabs (B2R (Prim2B (get n0 a i k)) * B2R (Prim2B (get n0 b k j)))) (seq 0 (width a)))
+       + INR (width a) * bpow radix2 (-1075))
+    < bpow radix2 1024)%R ->
+  (forall k, (k < width a)%nat ->
+     is_finite (Prim2B (PrimFloat.mul (get n0 a i k) (get n0 b k j))) = true) /\
+  (forall m, (m <= width a)%nat -> is_finite (Prim2B (dot_partial a b i j m)) = true).
+Print Assumptions c11_dot_float_no_overflow.
+
+(* non-vacuity of the float hypotheses: Proofs.Arr2DFloat.ex_a . ex_b, a 2x2 product
+   [[1.5, 0.1], [-3, 2]] . [[0.2, 4], [5, 0.3]] (nearest binary64 values), checked by computation *)
+Example c11_float_nonvacuous :
+  Inv ex_a /\ Inv ex_b /\ width ex_a = height ex_b /\
+  (forall i j k, (i < height ex_a)%nat -> (j < width ex_b)%nat -> (k < width ex_a)%nat ->
+     is_finite (Prim2B (PrimFloat.mul (get n0 ex_a i k) (get n0 ex_b k j))) = true) /\
+  (forall i j m, (i < height ex_a)%nat -> (j < width ex_b)%nat -> (m <= width ex_a)%nat ->
+     is_finite (Prim2B (dot_partial ex_a ex_b i j m)) = true).
+Proof. exact Proofs.Arr2DFloat.ex_dot_hyps. Qed.
